@@ -6694,10 +6694,30 @@ func checkCarriageReturnEndsWords(c *Ctx, p *core.Prog) {
 			continue
 		}
 		var hyph []*ssa.BasicBlock
+		testsHyphen := func(g *ssa.Function) bool {
+			for _, h := range pkgClosure(g, v2pkg) {
+				for _, hb := range h.Blocks {
+					for _, in := range hb.Instrs {
+						if bo, ok := in.(*ssa.BinOp); ok && (bo.Op == token.EQL || bo.Op == token.NEQ) {
+							if k, isK := core.ConstInt(bo.Y); isK && k == '-' {
+								return true
+							}
+						}
+					}
+				}
+			}
+			return false
+		}
 		for _, b := range fn.Blocks {
 			for _, in := range b.Instrs {
 				if bo, ok := in.(*ssa.BinOp); ok && (bo.Op == token.EQL || bo.Op == token.NEQ) {
 					if k, isK := core.ConstInt(bo.Y); isK && k == '-' {
+						hyph = append(hyph, b)
+					}
+				}
+				// ... or the hyphen test is made by a helper that is called there
+				if cl, ok := in.(*ssa.Call); ok {
+					if g := cl.Call.StaticCallee(); g != nil && g != fn && core.FuncPkgPath(g) == v2pkg && len(g.Blocks) > 0 && !isTraceFn(g) && testsHyphen(g) {
 						hyph = append(hyph, b)
 					}
 				}
